@@ -183,6 +183,8 @@ def check(run):
            'connections', 2)
     from .common import shared_state
     shared_state(R, 'C01.shared')
+    from .common import sized_truth
+    sized_truth(R, 'C01.shared')
     R.rule('C01.alias', 'no view of the reused receive buffer reaches a yield / coroutine send / field or container '
                         'store / return along _recv -> run -> WebSocket.feed -> WebsocketStream.feed -> Parser.feed', 6)
     R.rule('C01.conserve', 'each frame pulled from the parser is consumed exactly once on every path; the fragment list is '
